@@ -373,6 +373,11 @@ class IntervalInterp(object):
         e = strip(e)
         if e.k == 'var':
             return ('v', e.decl, e.op)
+        if e.k == 'mem':
+            from ..program import access_path
+            p = access_path(e)
+            if p is not None:
+                return ('f', p, p)
         # cell of a local (non-input) pointer with a constant subscript: i[0]
         if e.k == 'idx':
             b = strip(e.a[0])
@@ -434,6 +439,9 @@ class IntervalInterp(object):
                 return st.env[key]
             return type_range(e.t, e.dt)
         if k == 'mem':
+            key = self.key_of(e)
+            if key is not None and key in st.env:
+                return st.env[key]
             return type_range(e.t, e.dt)
         if k == 'un':
             v = self.ev(e.a[0], st)
@@ -464,6 +472,11 @@ class IntervalInterp(object):
             l, r = self.ev(e.a[0], st), self.ev(e.a[1], st)
             if l is None or r is None:
                 return type_range(e.t, e.dt)
+            if l[0] == l[1] and r[0] == r[1] and op in ('&', '|', '^'):
+                a_, b_ = l[0], r[0]
+                if a_ >= 0 and b_ >= 0:
+                    v_ = a_ & b_ if op == '&' else a_ | b_ if op == '|' else a_ ^ b_
+                    return self.fit((v_, v_), e, st)
             if op == '+':
                 return self.fit((l[0] + r[0], l[1] + r[1]), e, st)
             if op == '-':
